@@ -15,6 +15,14 @@ pub fn exec(op: &str, a: &Value) -> Option<Value> {
         "PlainDateTime.fromDateAndTime" => run(|| PlainDateTime::from_date_and_time(arg_date(&a["recv"])?, arg_time(&a["time"])?), p_datetime),
         // the infallible conversion: the value is projected through getters (its Display may panic)
         "PlainDateTime.fromPlainDate" => run(|| Ok(PlainDateTime::from(arg_date(&a["recv"])?)), p_datetime),
+        "PlainDate.toZonedUtc" => run(|| FS.with(|p| { let t = if a.get("time").is_some() { Some(arg_time(&a["time"])?) } else { None };
+            arg_date(&a["recv"])?.to_zoned_date_time_with_provider(utc(), t, p) }), |z| big(z.epoch_nanoseconds().as_i128())),
+        // a date built under the constrain option: an out-of-range YEAR is never clamped
+        "PlainDate.newConstrain" => run(|| { let d = &a["d"]; PlainDate::new_with_overflow(js::i(d, "y") as i32, js::i(d, "m") as u8, js::i(d, "d") as u8, iso(), ArithmeticOverflow::Constrain) }, p_date),
+        // a wall-clock date-time read in a fixed-offset zone (offset in minutes)
+        "PlainDateTime.toZonedOffset" => run(|| FS.with(|p| { let m = js::i(a, "off");
+            let tz = TimeZone::try_from_str(&format!("{}{:02}:{:02}", if m < 0 { '-' } else { '+' }, m.abs() / 60, m.abs() % 60))?;
+            arg_datetime(&a["dt"])?.to_zoned_date_time_with_provider(&tz, Disambiguation::Compatible, p) }), |z| big(z.epoch_nanoseconds().as_i128())),
         "PlainDate.fromStr" => run(|| { let d = &a["d"]; PlainDate::from_str(&format!("{}-{:02}-{:02}", year_str(js::i(d, "y")), js::i(d, "m"), js::i(d, "d"))) }, p_date),
         "PlainDateTime.fromStr" => run(|| { let d = &a["dt"]; PlainDateTime::from_str(&format!("{}-{:02}-{:02}T{:02}:{:02}:{:02}.{:03}{:03}{:03}", year_str(js::i(d, "y")), js::i(d, "m"), js::i(d, "d"),
             js::i(d, "h"), js::i(d, "mi"), js::i(d, "s"), js::i(d, "ms"), js::i(d, "us"), js::i(d, "ns"))) }, p_datetime),
